@@ -68,6 +68,37 @@ package stakepool
 //@   loop 1 invariant forall k string :: k in sp.Pools ==> sp.Pools[k].Reward <= old(sp.Pools[k].Reward) + valueLeft - valueBalance
 //@   loop 1 invariant sp.Reward >= old(sp.Reward)
 
+// Random selection of at most n delegate pools (map iteration, sort, rand.Perm): trusted.
+//@ func (*StakePool).getRandStakePools
+//@   trusted
+//@   ensures result2 == nil ==> len(result1) <= len(sp.Pools) && (n >= 0 && len(result1) > n ==> false)
+//@   ensures result2 == nil ==> forall i in 0..len(result1) :: exists k string :: k in sp.Pools && sp.Pools[k] == result1[i]
+//@   ensures result2 == nil ==> forall i in 0..len(result1) :: forall j in i+1..len(result1) :: result1[i] != result1[j]
+//@   ensures result2 == nil && result0 > 0 ==> len(result1) > 0
+//@   ensures fresh(result1) || len(result1) == 0
+//@   modifies nothing
+
+// Same guarantees for the random-N variant; additionally at most randN pools are selected.
+//@ func (*StakePool).DistributeRewardsRandN
+//@   prop C10, C23
+//@   requires sp != nil && poolsMapOK(sp) && sp.Reward <= MAXSUPPLY && value <= MAXSUPPLY && randN >= 0
+//@   ensures[dead-gets-nothing] old(sp.HasBeenKilled) || value == 0 ==> sp.Reward == old(sp.Reward)
+//@   ensures[dead-delegates-get-nothing] old(sp.HasBeenKilled) || value == 0 ==> (forall k string :: k in sp.Pools ==> sp.Pools[k].Reward == old(sp.Pools[k].Reward))
+//@   ensures sp.HasBeenKilled == old(sp.HasBeenKilled) && sp.Pools == old(sp.Pools)
+//@   ensures forall k string :: ((k in sp.Pools) == old(k in sp.Pools)) && sp.Pools[k] == old(sp.Pools[k])
+//@   ensures[stakes-untouched] forall k string :: k in sp.Pools ==> sp.Pools[k].Balance == old(sp.Pools[k].Balance)
+//@   ensures[no-delegates] err == nil && !old(sp.HasBeenKilled) && len(sp.Pools) == 0 && sp.Settings.MinStake == 0 ==> sp.Reward == old(sp.Reward) + value
+//@   at-call getRandStakePools assert[charge-le-value] serviceCharge <= value && valueLeft == value - serviceCharge
+//@   at-call equallyDistributeRewards assert[at-most-N] len(pools) <= randN && valueBalance <= valueLeft && valueLeft <= value
+//@   modifies sp.Reward, any(DelegatePool).Reward
+//@   loop 1 header "for _, pool := range pools"
+//@   loop 1 invariant valueBalance <= valueLeft && valueLeft <= value && sp.Pools == old(sp.Pools) && sp.HasBeenKilled == old(sp.HasBeenKilled)
+//@   loop 1 invariant forall k string :: ((k in sp.Pools) == old(k in sp.Pools)) && sp.Pools[k] == old(sp.Pools[k])
+//@   loop 1 invariant forall k string :: k in sp.Pools ==> sp.Pools[k].Balance == old(sp.Pools[k].Balance) && sp.Pools[k].Reward >= old(sp.Pools[k].Reward)
+//@   loop 1 invariant forall k string :: k in sp.Pools ==> sp.Pools[k].Reward <= old(sp.Pools[k].Reward) + valueLeft - valueBalance
+//@   loop 1 invariant forall i in 0..len(pools) :: pools[i] != nil
+//@   loop 1 invariant sp.Reward >= old(sp.Reward)
+
 // The remainder of a reward is handed out exactly: with n pools every pool gets coins/n and the
 // first coins%n pools (in the given order) one coin more. Summed over the pools this is coins.
 //@ func equallyDistributeRewards
